@@ -26,9 +26,12 @@ def scoped_stream(ctx: fw.Ctx, n_random: int):
         # layers with equal contents (shadowing that re-declares the same text) stay distinct layers
         [{"x": "1"}, {"x": "1"}],
         [{"x": "1", "v": '"0"'}, {"y": "x"}, {"x": "1", "v": '"0"'}],
+        # dotted bindings inside a layer
+        [{"meta.rev": "1", "x": "2"}],
+        [{"y": "1"}, {"meta.rev": "1", "meta.tag": "2", "x": "3"}],
     ]
     bodies = ["{ a = 1; }", "{\n  a = 1;\n  x = 5;\n}", "rec {\n  version = v;\n}", "{ }"]
-    names = ["x", "y", "v", "zz", "x.k", "a", "q", '"a@b"', 'x."@s/t"']
+    names = ["x", "y", "v", "zz", "x.k", "a", "q", '"a@b"', 'x."@s/t"', "meta.rev", "meta.zz", "meta"]
     for wname, wtpl in docs.WRAPPERS:
         for li, layers in enumerate(layer_sets):
             lay = "".join("let\n" + "".join((f"  {k};\n" if v is None else f"  {k} = {v};\n") for k, v in l.items())
